@@ -1,5 +1,5 @@
 """C01 - the METAR-like message is well-formed and obeys the ICAO layer selection."""
-from sa.rules import message, metarize, significance, wmo, amount, ownership
+from sa.rules import message, metarize, significance, wmo, amount, ownership, baseheight
 
 LEVEL = 'other'
 
@@ -17,6 +17,9 @@ def check(ctx):
     # R9: the MSA the message is cut at is the MSA the hits were cropped with: the chunk owns its parameters (a snapshot
     # shared with the live dictionary lets a later edit move the cut under layers that were kept)
     ownership.owned_fields(ctx, 'C01-R9')
+    # R10: the base that is compared with the MSA (reported below it, NSC at / above it) is computed from the member hits in
+    # time order (= C04-R2): another order moves the look-back window and with it the base across the MSA
+    baseheight.selection(ctx, 'C01-R10')
     ctx.extra['explanation'] = (
         'Proof by decomposition: the message is the blank-joined code cells selected by significant & base < MSA '
         '(R1-R3) from a table sorted by base before significance was computed (R5); the k-th flagged row has okta '
